@@ -186,6 +186,10 @@ class Run:
         self.order = []  # keys of outcomes in completion order
         self.faults_fired = {}
         self.fired_excs = []
+        self.pending = []
+        self.ga_armed = {}
+        self.spawned = 0
+        self.foreign_close = None
         self.max_events = MAX_EVENTS
         self.actor_by_task = False
         self.states = set()  # distinct (normalised suspension state, shadow-stack shape) pairs seen at hand-overs
@@ -524,7 +528,47 @@ class Run:
             return tx.td
         return n
 
+    def spawn(self, n):
+        """Fire-and-forget: an async call started in a COPY of the current context (what ``create_task`` does), advanced to its
+        k-th suspension and left pending there.  ``close_pending`` later closes it from whatever context is current then
+        (what the garbage collector does to a pending task nobody refers to)."""
+        ctx = contextvars.copy_context()
+        self.spawned += 1
+        name = "spawn%d" % self.spawned
+        td = dict(n["spawn"], id="%s.%d" % (n["spawn"]["id"], self.spawned))  # a host that runs several times spawns several calls
+
+        def start():
+            self.enter_actor(name)
+            return self.acall(td)
+
+        coro = ctx.run(start)
+        done = False
+        for _ in range(max(1, int(n.get("steps", 1)))):
+            try:
+                ctx.run(coro.send, None)
+            except StopIteration:
+                done = True
+                break
+        self.pending.append((name, coro, done))
+        self.ev("spawned", None, None, [name, done])
+
+    def close_pending(self):
+        """Close every pending fire-and-forget coroutine in the CURRENT context; returns how many were still suspended."""
+        n = 0
+        before = self.marker()
+        for name, coro, done in self.pending:
+            if not done:
+                n += 1
+                self.faults_fired["close_foreign"] = self.faults_fired.get("close_foreign", 0) + 1
+                coro.close()
+        self.pending = []
+        self.foreign_close = (before, self.marker(), n)
+        self.ev("closed_foreign", None, None, n)
+        return n
+
     def nested(self, a, tx, n):
+        if isinstance(n, dict) and "spawn" in n:
+            return self.spawn(n)
         td = self._td_of(tx, n)
         if self.world.is_async(td):
             raise HarnessError("sync hand-over cannot call async unit")
@@ -534,6 +578,8 @@ class Run:
             raise exc
 
     async def anested(self, a, tx, n):
+        if isinstance(n, dict) and "spawn" in n:
+            return self.spawn(n)
         td = self._td_of(tx, n)
         if self.world.is_async(td):
             out = await self.acall(td, parent=tx)
@@ -1070,6 +1116,27 @@ class World:
             return "O<%s>" % getattr(self, "_label", "?")
 
         ns["__repr__"] = __repr__
+        if cs.get("ga"):
+            # a proxy-like class whose attribute look-up can fail (lazy loader, remote object): an armed instance raises at the
+            # n-th look-up of ``__class__`` made while one of its calls is running (one shot)
+            def __getattribute__(self, name):
+                if name == "__class__":
+                    arm = run.ga_armed.get(id(self))
+                    if arm is not None:
+                        a = _ACTOR.get()
+                        tx = a.tstack[-1] if (a is not None and a.run is run and a.tstack) else None
+                        if tx is not None:
+                            if arm["n"] <= 0:
+                                del run.ga_armed[id(self)]
+                                e = run.make_fault(tx, "getattr", "raise:" + arm["exc"])
+                                e.verif_kind = "getattr:" + arm["exc"]
+                                run.ev("getattr_fault", None, tx.xid, None)
+                                run.fired(e)
+                                raise e
+                            arm["n"] -= 1
+                return object.__getattribute__(self, name)
+
+            ns["__getattribute__"] = __getattribute__
 
         def _poke(self, flags):
             self._flags.update(flags)
